@@ -319,6 +319,40 @@ pub fn run(cfg: &RunCfg, rep: &mut Report) {
                     };
                     judge_pair(rep, i, &world, &target, &case, &ss, &w, spend, "mutated-witness");
                 }
+                // (2b) scriptSig edits on witness spends: native witness programs need an empty
+                // scriptSig, P2SH-wrapped ones exactly the one push of the redeem script
+                if matches!(v.kind, SpendKind::P2wsh | SpendKind::P2wpkh | SpendKind::TrKey | SpendKind::TrScript | SpendKind::P2shP2wsh | SpendKind::P2shP2wpkh) {
+                    let push = |items: &[&[u8]]| {
+                        let mut s = vec![];
+                        for it in items {
+                            crate::refvm::script::push_minimal(&mut s, it);
+                        }
+                        s
+                    };
+                    let redeem: Vec<u8> = crate::refvm::script::parse(&p.script_sig)
+                        .ok()
+                        .and_then(|ops| ops.into_iter().rev().find_map(|o| if let crate::refvm::script::Op::Push { data, .. } = o { Some(data) } else { None }))
+                        .unwrap_or_default();
+                    let junk = mrng.pick(&pool).clone();
+                    let mut variants: Vec<Vec<u8>> = vec![push(&[&junk]), push(&[&[]]), push(&[&[1]]), vec![0x61]];
+                    if !redeem.is_empty() {
+                        variants = vec![
+                            push(&[&redeem, &redeem]),
+                            push(&[&junk, &redeem]),
+                            push(&[&[], &redeem]),
+                            push(&[&[1], &redeem]),
+                            [push(&[&redeem]), vec![0x51]].concat(),
+                            [vec![0x61], push(&[&redeem])].concat(),
+                            vec![],
+                        ];
+                    }
+                    for ss in variants {
+                        if ss == p.script_sig {
+                            continue;
+                        }
+                        judge_pair(rep, i, &world, &target, &case, &ss, &p.witness, spend, "scriptsig-edit-on-witness-spend");
+                    }
+                }
                 // (3) other lock-time worlds with re-signed witnesses
                 if !afters.is_empty() || !olders.is_empty() {
                     for _ in 0..3 {
